@@ -415,6 +415,8 @@ type ChanSpec struct {
 }
 
 type LemmaSpec struct {
+	Steps    []*SExpr
+	StepText []string
 	Name   string
 	Labels []string
 	Vars   [][2]string // name, sort
@@ -547,6 +549,17 @@ func (sp *Specs) readFile(path string) error {
 				return err
 			}
 			cur.Captures = append(cur.Captures, c)
+		case "step":
+			// lemma proof step: proved from the hypotheses and earlier steps, then assumed
+			if curLemma == nil {
+				return fail("step outside lemma")
+			}
+			e, err := parseSpecExpr(rest)
+			if err != nil {
+				return fail("%v", err)
+			}
+			curLemma.Steps = append(curLemma.Steps, e)
+			curLemma.StepText = append(curLemma.StepText, rest)
 		case "requires", "ensures":
 			if curLemma != nil {
 				e, err := parseSpecExpr(rest)
